@@ -333,6 +333,9 @@ func binop(op token.Token, t types.Type, x, y value) value {
 	if isSymStr(x) || isSymStr(y) {
 		return E.strBinop(op, x, y)
 	}
+	if isSymF(x) || isSymF(y) {
+		return E.fpBinop(op, t, x, y)
+	}
 	if isSym(x) || isSym(y) {
 		return E.symBinop(op, t, x, y)
 	}
@@ -1163,7 +1166,15 @@ func widen(x value) value {
 // Possible cases are described with the ssa.Convert operator.
 func conv(t_dst, t_src types.Type, x value) value {
 	if sx, ok := x.(sym); ok {
+		if E.Params["FPCONV"] == 1 {
+			if b, ok := t_dst.Underlying().(*types.Basic); ok && b.Info()&types.IsFloat != 0 {
+				return E.intToFP(t_dst, t_src, sx)
+			}
+		}
 		return E.symConv(t_dst, t_src, sx)
+	}
+	if fx, ok := x.(symf); ok {
+		return E.fpConv(t_dst, fx)
 	}
 	if ss, ok := x.(symstr); ok {
 		switch ud := t_dst.Underlying().(type) {
